@@ -102,6 +102,9 @@ func Run(ctx *common.Ctx) {
 					id := common.Pick(ctx.Rng, keyIDs)
 					args = append(args, ":"+pnames[id])
 					gargs = append(gargs, fmt.Sprintf("AKw %d", id))
+				} else if ctx.Rng.Chance(8) {
+					args = append(args, "nil")
+					gargs = append(gargs, "ANil")
 				} else {
 					z := 1 + ctx.Rng.Intn(30)
 					args = append(args, fmt.Sprint(z))
@@ -120,9 +123,14 @@ func Run(ctx *common.Ctx) {
 					args = append(args, ":"+pnames[id])
 					gargs = append(gargs, fmt.Sprintf("AKw %d", id))
 					if !ctx.Rng.Chance(7) { // sometimes the value is missing
-						z := 100 + ctx.Rng.Intn(50)
-						args = append(args, fmt.Sprint(z))
-						gargs = append(gargs, fmt.Sprintf("AInt %d", z))
+						if ctx.Rng.Chance(15) {
+							args = append(args, "nil")
+							gargs = append(gargs, "ANil")
+						} else {
+							z := 100 + ctx.Rng.Intn(50)
+							args = append(args, fmt.Sprint(z))
+							gargs = append(gargs, fmt.Sprintf("AInt %d", z))
+						}
 					}
 				}
 			}
@@ -200,6 +208,8 @@ func gValue(v slip.Object) string {
 		var xs []string
 		for _, e := range t {
 			switch te := e.(type) {
+			case nil:
+				xs = append(xs, "ANil")
 			case slip.Fixnum:
 				xs = append(xs, fmt.Sprintf("AInt (%d)%%Z", int64(te)))
 			case slip.Symbol:
